@@ -156,6 +156,11 @@ func (jenny *Builder) emptyValueForGuard(context languages.Context, typeDef ast.
 			return constructor
 		}
 
+		if resolvedType.IsRef() {
+			// the reference can't be resolved
+			return "nil"
+		}
+
 		return jenny.emptyValueForGuard(context, resolvedType)
 	case ast.KindArray, ast.KindMap:
 		return jenny.typeFormatter.doFormatType(typeDef, false) + "{}"
